@@ -148,6 +148,7 @@ def output(Nref=None, deme_mapping=None, generation_time=None):
             b = demes.Builder(time_units='years', generation_time=generation_time)
 
     # Build up info for each deme
+    deme_info = {}
     for deme in all_demes:
         epochs = []
         start_time, ancestors, proportions = None, None, None
@@ -199,6 +200,24 @@ def output(Nref=None, deme_mapping=None, generation_time=None):
                         proportions = [e.proportions[_] for _ in range(len(prev_e.deme_ids))
                                      if e.proportions[_] != 0]
 
+        deme_info[deme] = [epochs, start_time, ancestors, proportions]
+
+    # Demes that are created and removed (or renamed) without ever being integrated
+    # have no epochs and cannot be represented. Drop them, passing their ancestry
+    # on to any descendants.
+    for deme in all_demes:
+        epochs, start_time, ancestors, proportions = deme_info[deme]
+        if len(epochs) == 0:
+            continue
+        while ancestors is not None and any(len(deme_info[a][0]) == 0 for a in ancestors):
+            contrib = {}
+            for a, p in zip(ancestors, proportions):
+                if len(deme_info[a][0]) > 0:
+                    contrib[a] = contrib.get(a, 0) + p
+                else:
+                    for aa, pp in zip(deme_info[a][2], deme_info[a][3]):
+                        contrib[aa] = contrib.get(aa, 0) + p*pp
+            ancestors, proportions = list(contrib.keys()), list(contrib.values())
         b.add_deme(deme, epochs=epochs, start_time=start_time, ancestors=ancestors, proportions=proportions)
 
     all_migs = []
